@@ -370,6 +370,7 @@ def runHistory (cfg : Cfg) (ops : List J) : List J :=
         let r := stepA cfg f notifyOn op
         let rec' := J.obj [("out", outcomeToJ r.out), ("dump", forestToJ r.forest),
                            ("wf", .bool r.forest.wf), ("aliased", .bool r.forest.aliased), ("adm", .bool (Admissible cfg f notifyOn op)),
+                           ("keyed", .bool (wellKeyed op)),
                            ("rop", .str (reprStr op))]
         if r.out == .diverges then (rec' :: acc).reverse else go r.forest rest (rec' :: acc)
   go Forest.empty ops []
